@@ -152,6 +152,7 @@ type runResult struct {
 	cstreams map[int][]ochange
 	closed   []int
 	err      error
+	stray    string // the collection holds items under ids no call of the program stores under
 }
 
 type world struct {
@@ -169,6 +170,7 @@ type world struct {
 	lclosed  map[int]bool
 	lpid     map[int]string
 	rng      *gidRNG
+	stray    string
 	idLower  bool
 	extraIDs []string       // generated ids reported by the calls, and every id the scenario mentions
 	pids     map[int]string // PullID subscribers: thread -> id
@@ -371,6 +373,7 @@ func (w *world) finish(r *runResult) {
 		_ = m
 	}
 	r.finalC = w.list()
+	r.stray = w.stray
 	// the readers without backpressure keep receiving: until every goroutine of their pipelines is
 	// blocked and nothing is offered any more
 	for _, t := range w.lossyThreads() {
@@ -575,7 +578,8 @@ func (w *world) list() []kv {
 		}
 	}
 	if n := len(w.coll.List()); n != len(out) {
-		panic(fmt.Sprintf("collection holds %d items, %d under the known ids", n, len(out)))
+		// reported as a direct violation by emitCase / emitGen (an item stored under an id the calls do not name)
+		w.stray = fmt.Sprintf("the collection holds %d items, %d of them under the ids the program's calls store under", n, len(out))
 	}
 	sort.Slice(out, func(i, j int) bool { return out[i].id < out[j].id })
 	return out
@@ -929,6 +933,11 @@ func emitCase(o *vcoq.Out, sc *scenario, r *runResult, extraTags []string) {
 			Class:  class,
 			Replay: map[string]any{"program": jsProg(sc), "schedule": r.sched},
 		})
+		return
+	}
+	if r.stray != "" {
+		o.Directs = append(o.Directs, vcoq.Direct{What: r.stray, Class: "stray-item",
+			Replay: map[string]any{"program": jsProg(sc), "schedule": r.sched}})
 		return
 	}
 	prog := make([]string, len(sc.prog))
